@@ -311,6 +311,24 @@ func r05_3(c *Ctx, rule string) {
 		}
 		c.ObSuccessNeeds(rule, c.name(cl)+"/success-needs-digest", cl, nil, nil, dg, "computing the digest")
 	}
+	// the change handed over by the differ carries the stat as sent, not the
+	// clone that was filtered for the comparison
+	if loop := diffLoop(c, rule); loop != nil {
+		_, bCell := walkerCells(c, loop)
+		for _, call := range c.P.CallsTo(loop, "freevar:changeFn") {
+			arg := call.Common().Args[2]
+			fromClone := c.DerivesFromLocal(arg, func(v ssa.Value) bool { return c.isCallValueTo(v, "types.(*Stat).Clone", "types.(*Stat).CloneVT") }, 10)
+			fromB := bCell != "" && c.DerivesFromLocal(arg, func(v ssa.Value) bool {
+				u, ok := v.(*ssa.UnOp)
+				if !ok || u.Op != token.MUL {
+					return false
+				}
+				fv, ok := u.X.(*ssa.FreeVar)
+				return ok && fv.Name() == bCell
+			}, 10)
+			c.R.Check(!fromClone && fromB, rule, c.siteName(call)+"/stat-as-sent", c.pos(call), "the change carries the source walker's own stat", "the change handed to the writer can carry the filtered clone made for the comparison instead of the stat as sent: digest header and reported metadata are the filtered ones")
+		}
+	}
 	// every processChange receives HandleChange's own fi
 	hc := c.Fn(rule, "fsutil.(*DiskWriter).HandleChange")
 	pc := c.Fn(rule, "fsutil.(*DiskWriter).processChange")
